@@ -252,7 +252,7 @@ package simpledb
 //@ func (*DB).GetBytes
 //@   props C01 C18
 //@   replay db_program_model
-//@   bounded db_program_model database vs. reference map: 120 (quick) / 600 (thorough) seeded random programs of 40 steps over 5 keys (put, overwrite, delete, get, forced rotation, compaction cycle, close + re-open) x option sets (memstore 64 B .. 1 MiB, compaction threshold 1..3, max size 1 KiB .. 1 MiB, ratio 0.1 .. 1, read / write buffers 64 B .. 64 KiB); every Get and the full state after every restart are compared
+//@   bounded db_program_model database vs. reference map: 60 (quick) / 600 (thorough) seeded random programs of 40 steps over 5 keys (put, overwrite, delete, get, forced rotation, compaction cycle, close + re-open) x option sets (memstore 64 B .. 1 MiB, compaction threshold 1..3, max size 1 KiB .. 1 MiB, ratio 0.1 .. 1, read / write buffers 64 B .. 64 KiB); every Get and the full state after every restart are compared
 //@   requires db.rwLock != nil && db.sstableManager != nil && db.sstableManager.managerLock != nil && db.memStore != nil &&
 //@            db.memStore.writeStore != nil && db.memStore.readStore != nil && db.sstableManager.currentReader != nil
 //@   ensures [not-open] !db.open ==> r1 == ErrNotOpenedYet
